@@ -24,6 +24,8 @@
                     6002  switching_times() differs from the sorted, duplicate-free activation times
                     6003  replace_switches(t) differs from the model built with the source-extracted comparison
                     6004  replace_switches_before(t) differs from the model built with the source-extracted comparison
+                    6005  the initialize(before, T) calls (configuration, T, `before` carries initial conditions)
+                          or the final configuration differ from the source-translated loop of convert_IVP
    All evaluation is by vm_compute in the generated cases_k.v. *)
 Require Import LT.FieldSec LT.PolyQ LT.QcI LT.ExpPoly LT.ILT LT.ILTCorr LT.TimeDom LT.TimeDomSwitch.
 Local Open Scope F_scope.
@@ -176,3 +178,13 @@ Definition sw_items (before_cmp after_cmp : Qc -> Qc -> bool) (closed_m : swkind
   (if qlist_eqb' times obs_times then [] else [6002%nat]) ++
   (if bools_eqb (code_repl after_cmp) obs_after then [] else [6003%nat]) ++
   (if bools_eqb (code_repl before_cmp) obs_before then [] else [6004%nat]).
+
+(* the source-translated loop of convert_IVP (TimeDomSwitch.run_loop on Gen.SwitchGen.loop_gen) against the instrumented run *)
+Fixpoint trace3_eqb (a b : list tentry) : bool :=
+  match a, b with
+  | [], [] => true
+  | (c, T, f) :: a', (c', T', f') :: b' => bools_eqb c c' && qc_eqb T T' && Bool.eqb f f' && trace3_eqb a' b'
+  | _, _ => false end.
+Definition sw_loop_items (ld : loopdef) (sws : list sw) (t : Qc) (obs_final : list bool) (obs_trace : list tentry) : list nat :=
+  let r := run_loop ld sws (switching_times sws) t in
+  if trace3_eqb (fst r) obs_trace && bools_eqb (ccfg (snd r)) obs_final then [] else [6005%nat].
